@@ -518,7 +518,8 @@ def _np_array_equal(a1, a2, equal_nan=False):
 @handles(np.nan_to_num)
 def _np_nan_to_num(x, copy=True, nan=0.0, posinf=None, neginf=None):
     base = np.asarray(x).view(np.ndarray)
-    out = np.array(base, dtype=object, copy=True)
+    # copy=False works IN PLACE on an array argument (numpy semantics): the caller's data changes
+    out = base if (not copy and isinstance(x, np.ndarray) and base.dtype == object) else np.array(base, dtype=object, copy=True)
     for idx in np.ndindex(*out.shape):
         v = out[idx]
         if _is_nan(v):
